@@ -1249,6 +1249,79 @@ pub fn wait_sqlite_closed(dir: &Path) {
     while any_wal(dir) && t0.elapsed() < std::time::Duration::from_secs(10) {
         std::thread::sleep(std::time::Duration::from_millis(2));
     }
+    if std::env::var("SOSSIM_TRACE").is_ok() {
+        eprintln!("wait_sqlite_closed: {:?} still_open={}", t0.elapsed(), any_wal(dir));
+    }
+}
+
+/// Consistent copy of a data directory whose sqlite database may still be
+/// open somewhere in this process (background tasks of a dropped account can
+/// keep a connection alive for an unpredictable time): ordinary files are
+/// copied, every `*.db` is copied *through SQLite* (`VACUUM INTO`, a
+/// transactionally consistent image without `-wal` / `-shm` side files).
+pub async fn snapshot_dir(src: &Path, dst: &Path) -> Result<(), String> {
+    wait_sqlite_closed_for(src, std::time::Duration::from_millis(200));
+    let mut dbs: Vec<(PathBuf, PathBuf)> = vec![];
+    fn walk(src: &Path, dst: &Path, dbs: &mut Vec<(PathBuf, PathBuf)>) -> std::io::Result<()> {
+        std::fs::create_dir_all(dst)?;
+        for e in std::fs::read_dir(src)? {
+            let e = e?;
+            let p = e.path();
+            let t = dst.join(e.file_name());
+            let name = e.file_name().to_string_lossy().to_string();
+            if e.file_type()?.is_dir() {
+                walk(&p, &t, dbs)?;
+            } else if name.ends_with("-wal") || name.ends_with("-shm") {
+                continue;
+            } else if name.ends_with(".db") {
+                dbs.push((p, t));
+            } else {
+                match std::fs::copy(&p, &t) {
+                    Ok(_) => {}
+                    Err(e) if e.kind() == std::io::ErrorKind::NotFound => {}
+                    Err(e) => return Err(e),
+                }
+            }
+        }
+        Ok(())
+    }
+    walk(src, dst, &mut dbs).map_err(|e| e.to_string())?;
+    for (from, to) in dbs {
+        let client = sos_database::open_file(&from).await.map_err(|e| e.to_string())?;
+        let target = to.to_string_lossy().to_string();
+        client
+            .conn(move |c| {
+                c.execute("VACUUM INTO ?1", [target.as_str()])?;
+                Ok(())
+            })
+            .await
+            .map_err(|e| format!("vacuum into: {e}"))?;
+        let _ = client.close().await;
+    }
+    Ok(())
+}
+
+fn wait_sqlite_closed_for(dir: &Path, max: std::time::Duration) {
+    fn any_wal(p: &Path) -> bool {
+        let Ok(rd) = std::fs::read_dir(p) else { return false };
+        for e in rd.flatten() {
+            let path = e.path();
+            if path.is_dir() {
+                if any_wal(&path) {
+                    return true;
+                }
+            } else if let Some(n) = path.file_name().and_then(|n| n.to_str()) {
+                if n.ends_with("-wal") || n.ends_with("-shm") {
+                    return true;
+                }
+            }
+        }
+        false
+    }
+    let t0 = std::time::Instant::now();
+    while any_wal(dir) && t0.elapsed() < max {
+        std::thread::sleep(std::time::Duration::from_millis(2));
+    }
 }
 
 pub fn copy_dir_all(src: &Path, dst: &Path) -> std::io::Result<()> {
